@@ -189,7 +189,7 @@ def run_check(prop, tier, seed):
             "evaluations": merged["evals"],
             "distinct_nontrivial": len(merged["keys"]) if not plan.counts_distinct_in_stats else merged["stats"].get("distinct_nontrivial", 0),
             "rule": plan.rule,
-            "samples": [cases.jsonable(_trim(s)) for s in samples] or [{"note": "no sample"}],
+            "samples": [cases.readable(_trim(s)) for s in samples] or [{"note": "no sample"}],
             "cases_run": merged["cases"],
             "families": dict(merged["families"]),
             "deciding_events": deciding,
